@@ -370,7 +370,47 @@ func VerifC11FormRoundTrip() {
 	}
 }
 
+// VerifC11FormRoundTripBytes: one pair whose name or value is a window of 0..K arbitrary bytes
+// (invalid UTF-8 included) followed by a concrete ASCII tail: the serialization parses back to the
+// same list (scalar-value reading), by the implementation and by the standard's parser, and the query
+// of the URL is that serialization.
+func VerifC11FormRoundTripBytes() {
+	u, sp := freshParams()
+	k := vnd.Param("C11.KRoundBytes", 2, 3)
+	tail := []string{"", "yz", "e-au"}[vnd.Pick(3)]
+	nm, vl := "n"+tail, "v"+tail
+	if vnd.Bool() {
+		nm = vnd.Str(vnd.Len(k)) + tail
+	} else {
+		vl = vnd.Str(vnd.Len(k)) + tail
+	}
+	if vnd.Bool() {
+		sp.Append(nm, vl)
+	} else {
+		sp.Set(nm, vl)
+	}
+	ml := []model.Pair{{Name: nm, Value: vl}}
+	s := sp.String()
+	vnd.Observe("serialized", s)
+	if u.Query() != s {
+		vnd.Fail("after a mutating list operation the URL's query is not the serialized list")
+	}
+	v, err := Parse("http://h/?" + s)
+	if err != nil {
+		vnd.Fail("the serialized parameters do not parse as a query")
+	}
+	if !samePairs(implPairs(v.SearchParams()), ml) {
+		vnd.Known("form-serialize-unescaped", classFSer(ml))
+		vnd.Fail("serializing a list and parsing the result does not return the same list")
+	}
+	if !samePairs(model.FormParse(s), ml) {
+		vnd.Known("form-serialize-unescaped", classFSer(ml))
+		vnd.Fail("the standard's form parser does not read the serialization back to the same list")
+	}
+}
+
 func init() {
+	verifHarnesses["VerifC11FormRoundTripBytes"] = VerifC11FormRoundTripBytes
 	verifHarnesses["VerifC11FormParseTokens"] = VerifC11FormParseTokens
 	verifHarnesses["VerifC11ListSeq"] = VerifC11ListSeq
 	verifHarnesses["VerifC11SortRunes"] = VerifC11SortRunes
